@@ -17,12 +17,12 @@ from ..core import Check, MachineryError, run_tlc, scratch, PY, VERIF
 CONFIGS = [(s, o) for s in (False, True) for o in (False, True)]
 
 
-def cfgname(sync, obl, fixed=True):
-    return "WorldTides_s%s_o%s_%s.cfg" % (str(sync).upper(), str(obl).upper(), "fixed" if fixed else "asis")
+def cfgname(sync, obl, fixed=True, deferred=False):
+    return "WorldTides_s%s_o%s_%s.cfg" % (str(sync).upper(), str(obl).upper(), "deferred" if deferred else ("fixed" if fixed else "asis"))
 
 
 def spec_state(st):
-    return [st["e"], st["obl"], st["orb"], st["spin"], st["q"]]
+    return [st["e"], st["obl"], st["orb"], st["spin"], st["q"], 1 if st.get("pending") else 0]
 
 
 def parse_params(args):
@@ -31,10 +31,10 @@ def parse_params(args):
     return list(tlaval.parse_value("<<" + args + ">>"))
 
 
-def behaviours_from_sim(sync, obl, num, depth, seed):
+def behaviours_from_sim(sync, obl, num, depth, seed, deferred=False):
     wd = scratch("c13sim")
     os.makedirs(os.path.join(wd, "sim"))
-    r = run_tlc("WorldTides", cfgname(sync, obl), workdir=wd, workers=1, timeout=900, depth=depth,
+    r = run_tlc("WorldTides", cfgname(sync, obl, deferred=deferred), workdir=wd, workers=1, timeout=900, depth=depth,
                 simulate="file=%s,num=%d" % (os.path.join(wd, "sim", "b"), num), seed=seed)
     behs = []
     for f in sorted(os.listdir(os.path.join(wd, "sim"))):
@@ -48,13 +48,17 @@ def behaviours_from_sim(sync, obl, num, depth, seed):
 
 
 def behaviours_from_graph(ck, sync, obl, rng, max_edges):
+    return graph_walks(ck, "WorldTides", cfgname(sync, obl), spec_state, rng, max_edges, "sync=%s,obl=%s" % (sync, obl))
+
+
+def graph_walks(ck, module, cfg, spec_state, rng, max_edges, label):
     """Transition cover of the complete state graph (every distinct (state, action instance) pair at least once,
-    up to max_edges sampled uniformly when the graph is larger)."""
-    wd = scratch("c13dot")
+    up to max_edges sampled uniformly when the graph is larger), as long walks."""
+    wd = scratch("dot")
     dot = os.path.join(wd, "g.dot")
-    r = run_tlc("WorldTides", cfgname(sync, obl), workdir=wd, timeout=1800, dump_dot=dot)
+    r = run_tlc(module, cfg, workdir=wd, timeout=1800, dump_dot=dot)
     nodes, inits, edges = tlaval.parse_dot(dot)
-    ck.notes.setdefault("graphs", {})["sync=%s,obl=%s" % (sync, obl)] = {"nodes": len(nodes), "edges": len(edges)}
+    ck.notes.setdefault("graphs", {})[label] = {"nodes": len(nodes), "edges": len(edges)}
     out = {}
     for s, d, lab in edges:
         out.setdefault(s, []).append((d, lab))
@@ -140,7 +144,33 @@ def behaviours_from_graph(ck, sync, obl, rng, max_edges):
     return behs
 
 
+def warm_numba(jobs):
+    """A fresh numba cache directory (the repo changed) must not be populated by 16 processes at once: concurrent
+    first-time compilation was seen to leave broken cache entries (IndexError inside jitted code). Every type signature the
+    drivers use (CPL/CTL x obliquity on/off x scalar/array/mixed/in-place) is compiled once, serially, into the shared
+    cache; the parallel drivers then work on private copies of it."""
+    shared = os.environ.get("NUMBA_CACHE_DIR")
+    stamp = os.path.join(shared, ".warm_world_driver") if shared else None
+    if not jobs or (stamp and os.path.exists(stamp)):
+        return
+    seen = set()
+    for j in jobs:
+        for g in j.get("groups") or [{"form": j["form"], "behaviours": j["behaviours"]}]:
+            key = (j["config"]["ctl"], j["config"]["obl_on"], g["form"])
+            if key in seen or not g["behaviours"]:
+                continue
+            seen.add(key)
+            _run_jobs([{"config": j["config"], "form": g["form"], "behaviours": [g["behaviours"][0][:6]]}], parallel=1)
+    if stamp:
+        open(stamp, "w").write("ok")
+
+
 def run_jobs(jobs):
+    warm_numba(jobs)
+    return _run_jobs(jobs, parallel=core.NCPU)
+
+
+def _run_jobs(jobs, parallel):
     wd = scratch("c13jobs")
     procs = []
     for i, job in enumerate(jobs):
@@ -152,9 +182,10 @@ def run_jobs(jobs):
     env = dict(os.environ, PYTHONPATH=VERIF, PYTHONHASHSEED="0", NUMBA_NUM_THREADS="1", OMP_NUM_THREADS="1")
     pending = list(procs)
     while pending or running:
-        while pending and len(running) < core.NCPU:
+        while pending and len(running) < parallel:
             p, job = pending.pop(0)
             lf = open(p + ".log", "w")
+            env = dict(env, NUMBA_CACHE_DIR=core.private_numba_cache(os.path.basename(p)) if parallel > 1 else os.environ.get("NUMBA_CACHE_DIR", ""))
             running.append((subprocess.Popen([PY, "-m", "harness.world_driver", p], cwd=VERIF, env=env,
                                              stdin=subprocess.DEVNULL, stdout=lf, stderr=subprocess.STDOUT), p, job, time.time()))
         for item in list(running):
@@ -175,9 +206,11 @@ def model_check(ck):
     for sync, obl in CONFIGS:
         r = run_tlc("WorldTides", cfgname(sync, obl), coverage=True, timeout=900)
         ck.add_tlc(r, "WorldTides repaired cascade sync=%s obl=%s (complete graph)" % (sync, obl))
-        zero = [a for a, (d, t) in r.coverage.items() if t == 0 and a not in ("WorldSetSpin",) ]
+        zero = [a for a, (d, t) in r.coverage.items() if t == 0 and a not in ("WorldSetSpin",) and not a.endswith("Deferred")]
         if zero:
             raise MachineryError("vacuity: actions never taken: %s" % zero)
+        rd = run_tlc("WorldTides", cfgname(sync, obl, deferred=True), coverage=True, timeout=900)
+        ck.add_tlc(rd, "WorldTides with deferred (call_updates=False) setters sync=%s obl=%s" % (sync, obl))
         rr = run_tlc("WorldTides", cfgname(sync, obl, fixed=False), expect_violation=True, timeout=600)
         if rr.violated != "C13_Fresh":
             raise MachineryError("negative control (as-found cascade) not violated: %s" % rr.violated)
@@ -197,18 +230,24 @@ def run(tier, seed, pid="C13"):
     model_check(ck)
     jobs = []
     nsim, depth = (24, 30) if tier == "quick" else (150, 40)
-    forms = ["scalar", "array", "mixed"]
+    forms = ["scalar", "array", "mixed", "inplace"]
     for sync, obl in CONFIGS:
-        behs = behaviours_from_sim(sync, obl, nsim * 2 * 3, depth, seed + 7)
+        behs = behaviours_from_sim(sync, obl, nsim * 2 * 4, depth, seed + 7)
         # complete transition cover of the dumped state graph: sync configs (50k edges) in both tiers, sampled in quick;
         # the non-sync graphs (1.2M edges) only in the thorough tier
         gb = []
         if sync or tier == "thorough":
             gb = behaviours_from_graph(ck, sync, obl, rng, 2500 if tier == "quick" else 10 ** 9)
+        dbehs = behaviours_from_sim(sync, obl, nsim * 2, depth, seed + 13, deferred=True)
+        for ci, ctl in enumerate((False, True)):
+            jobs.append({"config": {"sync": sync, "obl_on": obl, "ctl": ctl}, "form": ["scalar", "array"][ci], "behaviours": dbehs[ci::2]})
         k = 0
         for ctl in (False, True):
             for form in forms:
-                part = behs[k::6]
+                if tier == "quick" and form not in (("scalar", "inplace") if not ctl else ("scalar", "mixed")):
+                    k += 1
+                    continue            # quick tier: CPL scalar + in-place arrays, CTL scalar + mixed; thorough: all four forms
+                part = behs[k::8]
                 # the graph cover is replayed in scalar form for CPL and CTL; array/mixed forms get the simulated walks
                 if form == "scalar":
                     part = part + gb
@@ -218,8 +257,21 @@ def run(tier, seed, pid="C13"):
                 for i in range(0, len(part), chunk):
                     jobs.append({"config": {"sync": sync, "obl_on": obl, "ctl": ctl}, "form": form,
                                  "behaviours": part[i:i + chunk]})
+    # one process per configuration: merge the per-form job lists into groups
+    merged = {}
+    for j in jobs:
+        key = json.dumps(j["config"], sort_keys=True)
+        merged.setdefault(key, {"config": j["config"], "groups": []})["groups"].append({"form": j["form"], "behaviours": j["behaviours"]})
+    jobs = []
+    for m in merged.values():
+        # split very large configurations in two processes
+        gs = sorted(m["groups"], key=lambda g: -sum(len(b) for b in g["behaviours"]))
+        half = [gs[0::2], gs[1::2]]
+        for h in half:
+            if h:
+                jobs.append({"config": m["config"], "groups": h, "form": h[0]["form"], "behaviours": h[0]["behaviours"]})
     # binding self-test: with one real call skipped the replay must diverge
-    neg = dict(jobs[0], behaviours=jobs[0]["behaviours"][:5], sabotage=True)
+    neg = {"config": jobs[0]["config"], "form": jobs[0]["form"], "behaviours": jobs[0]["behaviours"][:5], "sabotage": True}
     (nj, nres), = run_jobs([neg])
     if not all(rb["bad"] for rb in nres["results"]):
         raise MachineryError("binding self-test failed: a replay with a skipped call was not detected")
@@ -228,12 +280,15 @@ def run(tier, seed, pid="C13"):
     results = run_jobs(jobs)
     ck.notes["replay_wall_s"] = round(time.time() - t0, 1)
     nsteps = 0
-    for job, res in results:
+    for job0, res0 in results:
+      for g, gres in zip(job0["groups"], res0["groups"]):
+        job = {"config": job0["config"], "form": g["form"], "behaviours": g["behaviours"]}
+        res = gres
         for rb in res["results"]:
             beh = job["behaviours"][rb["behaviour"]]
             nsteps += rb["steps"]
             for st in beh[:rb["steps"]]:
-                ck.case((json.dumps(job["config"], sort_keys=True), job["form"], st[0], tuple(map(str, st[1])), tuple(st[2])),
+                ck.case((json.dumps(job["config"], sort_keys=True), job["form"], st[0], tuple(map(str, st[1])), tuple(st[2][:5])),
                         nontrivial=st[0] != "Init")
             if rb["bad"]:
                 bad = rb["bad"][0]
@@ -247,7 +302,7 @@ def run(tier, seed, pid="C13"):
         for m in res["scalar_array_mismatch"]:
             ck.violation({"kind": "scalar_array", "what": m["what"]}, "config=%s form=%s state=%s: array element differs from scalar: %s" % (
                 job["config"], job["form"], m["state"], m), {"config": job["config"], "form": job["form"], "mismatch": m})
-    ck.cov["traces_validated_against_impl"] = sum(len(j["behaviours"]) for j in jobs)
+    ck.cov["traces_validated_against_impl"] = sum(len(g["behaviours"]) for j in jobs for g in j["groups"])
     ck.notes["replayed_steps"] = nsteps
     if results:
         job, res = results[0]
